@@ -262,6 +262,13 @@ pub mod collect_ax {
         ensures #[trigger] <Result<Vec<T>, E> as vstd::std_specs::iter::FromIteratorSpec<Result<T, E>>>::from_iter_ensures(items, s) ==> all_or_nothing(items, s);
 }
 pub use collect_ax::all_or_nothing;
+/// one modification per (ack id, seconds) pair, in order, each the per-pair result at `now` (lists of equal length)
+pub open spec fn stream_mods_ok(now: int, ids: Seq<String>, secs: Seq<i32>, mods: Seq<DeadlineModification>) -> bool {
+    &&& mods.len() == ids.len()
+    &&& ids.len() == secs.len()
+    &&& epoch().v() <= now <= now_max()
+    &&& forall|i: int| #![trigger mods[i]] 0 <= i < mods.len() ==> mod_pair_ok(now, ids[i]@, secs[i], Ok::<DeadlineModification, Status>(mods[i]))
+}
 /// every (ack id, seconds) pair of a request is well-formed
 pub open spec fn pairs_ok(ids: Seq<String>, secs: Seq<i32>) -> bool {
     forall|i: int| #![trigger ids[i]] #![trigger secs[i]] 0 <= i < imin(ids.len() as int, secs.len() as int) ==> parsed::<u64>(ids[i]@).is_some() && secs[i] >= 0
@@ -275,6 +282,8 @@ pub open spec fn pairs_ok(ids: Seq<String>, secs: Seq<i32>) -> bool {
 //@ # negative seconds value fails the whole request, and the only failure is INVALID_ARGUMENT
 //@ ensures[C05,C17] (match r { Ok(v) => forall|i: int| #![trigger v@[i]] 0 <= i < v@.len() ==> mod_pair_ok(now.v(), ack_ids@[i]@, modify_deadline_seconds@[i], Ok::<DeadlineModification, Status>(v@[i])) && parsed::<u64>(ack_ids@[i]@).is_some() && modify_deadline_seconds@[i] >= 0, Err(_) => true })
 //@ ensures[C05,C17] r.is_err() ==> err_code(r) == Some(Code::InvalidArgument)
+//@ # (the same, packaged for callers that pass lists of equal length)
+//@ ensures[C05] (match r { Ok(v) => ack_ids@.len() == modify_deadline_seconds@.len() ==> stream_mods_ok(now.v(), ack_ids@, modify_deadline_seconds@, v@), Err(_) => true })
 //@ # ... and a request whose pairs are all well-formed is not rejected
 //@ ensures[C05] pairs_ok(ack_ids@, modify_deadline_seconds@) ==> r.is_ok()
 //@ closure 1 ret m: Result<DeadlineModification, Status>
@@ -346,6 +355,33 @@ pub mod handlers {
         &&& epoch().v() <= now <= now_max()
         &&& forall|i: int| #![trigger mods[i]] 0 <= i < mods.len() ==> mod_pair_ok(now, ids[i]@, secs, Ok::<DeadlineModification, Status>(mods[i]))
     }
+    pub struct StreamingPullResponse { pub x: u8 }
+    /// the four consistency rules of a StreamingPull control message
+    pub open spec fn control_consistent(request: StreamingPullRequest) -> bool {
+        !(request.subscription@.len() > 0 || request.max_outstanding_bytes > 0 || request.max_outstanding_messages > 0 || request.modify_deadline_seconds@.len() != request.modify_deadline_ack_ids@.len())
+    }
+//@fn src/api/subscriber.rs handle_streaming_pull_request tags=C05
+//@ ret r
+//@ # C17: an inconsistent control message, a malformed ack id (in either list) or a negative seconds value: INVALID_ARGUMENT
+//@ ensures[C17] !control_consistent(request) ==> err_code(r) == Some(Code::InvalidArgument)
+//@ ensures[C17,C05] !ids_ok(request.ack_ids@) || !pairs_ok(request.modify_deadline_ack_ids@, request.modify_deadline_seconds@) ==> err_code(r) == Some(Code::InvalidArgument)
+//@ # C02: OK means the subscription was handed exactly the ack ids of the message, in order ...
+//@ ensures[C02] r.is_ok() && request.ack_ids@.len() > 0 ==> exists|ids: Seq<AckId>| #[trigger] acked(*subscription, ids) && ids.len() == request.ack_ids@.len() && forall|i: int| #![trigger ids[i]] 0 <= i < ids.len() ==> ids[i].v() == parsed::<u64>(request.ack_ids@[i]@).unwrap()
+//@ # C05: ... and one modification per (ack id, seconds) pair, in order, each as the per-pair rule says
+//@ ensures[C05] r.is_ok() && request.modify_deadline_ack_ids@.len() > 0 ==> exists|mods: Seq<DeadlineModification>, now: int| #![trigger modified(*subscription, mods), stream_mods_ok(now, request.modify_deadline_ack_ids@, request.modify_deadline_seconds@, mods)] modified(*subscription, mods) && stream_mods_ok(now, request.modify_deadline_ack_ids@, request.modify_deadline_seconds@, mods)
+//@ closure 1 ret a: Result<AckId, Status>
+//@ closure 1 ensures (match a { Ok(x) => parsed::<u64>($1@).is_some() && x.v() == parsed::<u64>($1@).unwrap(), Err(e) => parsed::<u64>($1@).is_none() && e.code == Code::InvalidArgument })
+//@ closure 2 ret st: Status
+//@ closure 2 ensures st.code == Code::FailedPrecondition
+//@ closure 3 ret st: Status
+//@ closure 3 ensures st.code == Code::FailedPrecondition
+//@ proof-after /\.collect::<Result<Vec<_>, Status>>\(\)\?;/ { assert forall|i: int| 0 <= i < request.ack_ids@.len() implies parsed::<u64>((#[trigger] request.ack_ids@[i])@).is_some() by { let x = ack_ids@[i]; } }
+//@end
+//@fn src/api/subscriber.rs conflict tags=C17
+//@ ret r
+//@ ensures r.code == Code::FailedPrecondition
+//@end
+
     /// C05 at the RPC surface: every ack id is well-formed and the one seconds value is not negative
     pub open spec fn modack_ok(ids: Seq<String>, secs: i32) -> bool { ids_ok(ids) && (ids.len() > 0 ==> secs >= 0) }
     impl SubscriberService {
